@@ -384,7 +384,7 @@ func modeTLSGate(args []string) {
 	p := newPKI()
 	defer p.cleanup()
 	creds := []string{"none", "plaintext", "selfsigned", "foreignca", "expired", "wrongname", "intermediate-name", "valid", "valid-under-neutral-intermediate"}
-	faults := []string{"complete", "abort", "stall", "garbage"}
+	faults := []string{"complete", "abort", "stall", "garbage", "hello-then-garbage", "oversized-record", "sslv2-hello", "hello-then-plain-command"}
 	for _, cfgName := range []string{"norule", "rule", "rule+pw"} {
 		rule := cfgName != "norule"
 		pw := ""
@@ -463,6 +463,26 @@ func modeTLSGate(args []string) {
 							raw.Close()
 						case fault == "stall":
 							held = raw // connect and say nothing
+						case fault == "hello-then-garbage" || fault == "hello-then-plain-command":
+							// a genuine ClientHello, then bytes that are not a TLS record
+							h := &helloThen{Conn: raw, then: []byte("\x00\x01garbage after the hello\xff\xfe\r\n")}
+							if fault == "hello-then-plain-command" {
+								h.then = []byte(resp("WHOAMI"))
+							}
+							c := tls.Client(h, p.clientConfig(cert))
+							c.SetDeadline(time.Now().Add(ioTimeout))
+							c.Handshake()
+							raw.Close()
+						case fault == "oversized-record":
+							raw.SetDeadline(time.Now().Add(ioTimeout))
+							raw.Write([]byte("\x16\x03\x01\xff\xff" + strings.Repeat("A", 64)))
+							io.ReadAll(io.LimitReader(raw, 64))
+							raw.Close()
+						case fault == "sslv2-hello":
+							raw.SetDeadline(time.Now().Add(ioTimeout))
+							raw.Write([]byte("\x80\x2e\x01\x00\x02\x00\x15\x00\x00\x00\x10" + strings.Repeat("B", 40)))
+							io.ReadAll(io.LimitReader(raw, 64))
+							raw.Close()
 						case fault == "garbage":
 							raw.SetDeadline(time.Now().Add(ioTimeout))
 							raw.Write([]byte("\x16\x03\x01\x00\x05hello garbage \x00\xff\xfe"))
@@ -546,6 +566,26 @@ func idOr(id, cred string) string {
 		return "plain"
 	}
 	return id
+}
+
+// helloThen lets the first write (the ClientHello) through and replaces every later write by `then`.
+type helloThen struct {
+	net.Conn
+	wrote bool
+	then  []byte
+}
+
+func (h *helloThen) Write(b []byte) (int, error) {
+	if !h.wrote {
+		h.wrote = true
+		n, err := h.Conn.Write(b)
+		if err == nil {
+			h.Conn.Write(h.then)
+		}
+		return n, err
+	}
+	h.Conn.Write(h.then)
+	return len(b), nil
 }
 
 type abortAfterFirstWrite struct {
@@ -1023,6 +1063,92 @@ func runLife(p *pki, cfg, seq string) (lifeObs, bool) {
 	}
 }
 
+// ---------------------------------------------------------------- C15: Stop against a connection that registers while Stop runs
+// gatedConn: Close waits for the gate (holds Server.Stop inside its "close the registered connections" phase).
+type gatedConn struct {
+	net.Conn
+	gate chan struct{}
+}
+
+func (g *gatedConn) Close() error {
+	<-g.gate
+	return g.Conn.Close()
+}
+
+// stoprace: client A's socket is wrapped (through an application executor) so that closing it blocks; client B has connected to the TLS
+// port but not yet shaken hands.  Stop is called and blocks closing A; B now completes its handshake and is registered; the gate opens.
+// Stop must return, B must be closed, the registry must be empty: a connection accepted before Stop does not survive it, whenever it registers.
+func modeStopRace(args []string) {
+	rounds := 3
+	if len(args) > 0 {
+		rounds, _ = strconv.Atoi(args[0])
+	}
+	p := newPKI()
+	defer p.cleanup()
+	for round := 0; round < rounds; round++ {
+		s, err := startSUT(p, "both", false, "")
+		if err != nil {
+			emit(map[string]any{"error": "start: " + err.Error()})
+			continue
+		}
+		gate := make(chan struct{})
+		s.srv.RegisterExexutor("GATE", func(conn *redis.Conn, cmd string, args redis.Arguments) (*redis.Message, error) {
+			conn.Conn = &gatedConn{Conn: conn.Conn, gate: gate}
+			return redis.NewOKMessage(), nil
+		})
+		res := map[string]any{"round": round, "problems": []string{}}
+		add := func(msg string) { res["problems"] = append(res["problems"].([]string), msg) }
+		a, err := net.DialTimeout("tcp", addr(s.plain), ioTimeout)
+		if err != nil {
+			add("A cannot connect: " + err.Error())
+		} else if rep, err := exchange(a, resp("GATE")); err != nil || !strings.HasPrefix(rep, "+OK") {
+			add(fmt.Sprintf("GATE was answered %q %v", rep, err))
+		}
+		rawB, err := net.DialTimeout("tcp", addr(s.secure), ioTimeout)
+		if err != nil {
+			add("B cannot connect: " + err.Error())
+		}
+		vc := p.valid.tlsCert()
+		if _, ok := tlsServed(p, s.secure, &vc, ""); !ok { // C is served after B was accepted (the accept loop is sequential)
+			add("a TLS client is not served before Stop")
+		}
+		stopDone := make(chan error, 1)
+		go func() { stopDone <- s.srv.Stop() }()
+		time.Sleep(300 * time.Millisecond) // Stop is now inside Close of A
+		bServed := false
+		var tb *tls.Conn
+		if rawB != nil {
+			tb = tls.Client(rawB, p.clientConfig(&vc))
+			tb.SetDeadline(time.Now().Add(ioTimeout))
+			if tb.Handshake() == nil {
+				bServed = servedOn(tb, "")
+			}
+		}
+		close(gate)
+		select {
+		case <-stopDone:
+		case <-time.After(5 * time.Second):
+			add("Stop did not return within 5 s after the blocked Close was released")
+		}
+		if tb != nil {
+			tb.SetDeadline(time.Now().Add(ioTimeout))
+			if _, err := tb.Read(make([]byte, 1)); err == nil || errors.Is(err, os.ErrDeadlineExceeded) {
+				add("client B (registered while Stop was running) is still open after Stop")
+			}
+			rawB.Close()
+		}
+		if n := len(s.srv.Conns()); n != 0 {
+			add(fmt.Sprintf("the registry holds %d connections after Stop", n))
+		}
+		res["b_served_during_stop"] = bServed
+		if a != nil {
+			a.Close()
+		}
+		emit(res)
+		go s.srv.Stop()
+	}
+}
+
 // ---------------------------------------------------------------- C07: a witness under connection churn and CONFIG SET
 // witness <seconds>: two connections loop CONFIG SET, twelve goroutines connect / PING / close, one long-lived witness connection
 // does PING / SET / GET and must get the exact reply to each within 3 s; finally Stop must return.
@@ -1143,7 +1269,8 @@ func modeRaceStress(args []string) {
 	deadline := time.Now().Add(time.Duration(secs) * time.Second)
 	var wg sync.WaitGroup
 	var ops int64
-	cmds := [][]string{{"PING"}, {"SET", "k", "v"}, {"GET", "k"}, {"INCR", "n"}, {"CONFIG", "SET", "maxmemory", "1"}, {"CONFIG", "GET", "maxmemory", "port"}, {"SELECT", "1"},
+	cmds := [][]string{{"PING"}, {"SET", "k", "v"}, {"GET", "k"}, {"INCR", "n"}, {"CONFIG", "SET", "maxmemory", "1"}, {"CONFIG", "GET", "maxmemory", "port"}, {"CONFIG", "SET", "timeout", "300"}, {"CONFIG", "SET", "maxclients", "100", "timeout", "0"},
+		{"CONFIG", "SET", "tcp-keepalive", "60"}, {"CONFIG", "GET", "timeout", "maxclients"}, {"SELECT", "1"},
 		{"RPUSH", "l", "a"}, {"LPOP", "l"}, {"SADD", "s", "a"}, {"SMEMBERS", "s"}, {"ZADD", "z", "1", "a"}, {"ZRANGE", "z", "0", "-1"}, {"HSET", "h", "f", "v"}, {"HGETALL", "h"},
 		{"MSET", "a", "1", "b", "2"}, {"MGET", "a", "b"}, {"KEYS", "*"}, {"DEL", "k"}, {"ECHO", "x"}, {"STRLEN", "k"}, {"APPEND", "k", "x"}, {"WHOAMI"}, {"AUTH", "x"}, {"AUTH", "u", "x"},
 		{"SET", "bigk", strings.Repeat("x", 70000)}, {"GET", "bigk"}, {"SET", "bigk2", strings.Repeat("y", 140000), "EX", "1000"}, {"ECHO", strings.Repeat("z", 66000)}}
